@@ -320,3 +320,40 @@ Proof.
       rewrite K. lia.
     + intros i Hi. rewrite Em in Hi. destruct Hi.
 Qed.
+
+(* the strict form of the upper bound, for a bidder with at least one matched bid
+   (for a bidder without matched bids both sides are 0, so the strict form is false there) *)
+Corollary batch_paid_strict a bs ids order al mi :
+  book_wf bs al -> valid_order bs ids = Some order -> 0 <= a_sell_amt a ->
+  denoms_wf (a_pay_denom a) bs ->
+  calc_batch a bs order al = Some mi ->
+  forall u, 0 < matched_count bs (mi_matched mi) u ->
+    (reserved_of (a_pay_denom a) bs u - mi_refund mi u) * P <
+    mi_price mi * mi_alloc mi u + matched_count bs (mi_matched mi) u * P.
+Proof.
+  intros WF VO Hs DW Hc u Hk.
+  destruct (batch_refund_facts a bs ids order al mi WF VO Hs DW Hc) as (_ & _ & H & _).
+  cbv zeta in H. specialize (H u). lia.
+Qed.
+
+(* the matched ids are pairwise distinct ids of bids of the book *)
+Theorem batch_matched_ids a bs ids order al mi :
+  book_wf bs al -> valid_order bs ids = Some order -> 0 <= a_sell_amt a ->
+  calc_batch a bs order al = Some mi ->
+  NoDup (mi_matched mi) /\ incl (mi_matched mi) (map b_id bs).
+Proof.
+  intros WF VO Hs Hc. destruct (calc_batch_full a bs ids order al WF VO Hs) as (mi' & E & _ & H).
+  rewrite Hc in E. inversion E; subst mi'. clear E.
+  destruct (valid_order_ids_nodup bs ids order VO) as (_ & NDo).
+  destruct (clearing_spec bs al (a_sell_amt a)) as [p|].
+  - destruct H as (Hp & _ & _ & _ & Em & _).
+    assert (Hpp : 0 < p).
+    { apply in_map_iff in Hp. destruct Hp as (b & <- & Hb). apply (wf_price _ _ WF b Hb). }
+    destruct (batch_asg_facts bs al ids order p WF VO Hpp) as (A1 & _ & A3). cbv zeta in A1, A3.
+    rewrite Em. unfold matched_ids. split.
+    + apply (NoDup_map_filter (fun x : bid * Z => b_id (fst x))).
+      rewrite <- (map_map fst b_id), A3. apply NoDup_map_filter. exact NDo.
+    + intros i Hi. apply in_map_iff in Hi. destruct Hi as (x & <- & Hx). apply filter_In in Hx.
+      apply in_map. apply (A1 x), Hx.
+  - destruct H as (_ & _ & Em & _). rewrite Em. split; [constructor|intros i []].
+Qed.
